@@ -17,6 +17,13 @@ Line-protocol operations for the emit layer (C06) and the backup write protocol 
   emit.cli <nightly> <check> <emit> <backup> <l> <quiet> <verbose> <inlineEmit> <inlineBackup>
            <stdin> <baseMode> <baseBackup>   -> <mode>:<backup>:<kind>:<printNames>:<quiet> | err:<word>
   emit.run <kind> <l> <quiet> <orig> <fmt> <script>  -> <ops>|<out>|<hasDiff>
+  emit.cfg <the first 9 arguments of emit.cli> <baseMode> <baseBackup>
+                                             -> <mode>:<backup> | err:<word>   what `--print-config current`
+                                                shows after `from_matches` + `apply_to`
+  emit.e2e <the 12 arguments of emit.cli> <orig> <fmt> <script>
+                                             -> <ops>|<out>|<exit> | err:<word>   one whole process on one
+                                                file without faults: `fromMatches`, `applyTo` / `stdinResolve`,
+                                                `createEmitter`, `emit`, `exitCode` with `diff := hasDiff`
 
 ops      `_` or items joined by `,`: `w:<p>` write, `r:<src>:<dst>` rename, `d:<p>` remove_file,
          `c:<src>:<dst>` copy; `<p>` is `file` | `tmp` | `bk`        e.g. `w:tmp,r:file:bk,r:tmp:file`
@@ -193,6 +200,50 @@ def handle (op : String) (args : List String) : Option String :=
         | .error e => pure s!"err:{encErr e}"
         | .ok r => pure (encResolved r)
       else pure (encResolved (applyTo c base))
+  | "emit.cfg", [nightly, check, emit, backup, l, quiet, verbose, ie, ib, bm, bb] => do
+    let nightly ← decBool nightly
+    let check ← decBool check
+    let emit ← decOpt decChars emit
+    let backup ← decBool backup
+    let l ← decBool l
+    let quiet ← decBool quiet
+    let verbose ← decBool verbose
+    let ie ← decOpt decMode ie
+    let ib ← decOpt decBool ib
+    let bm ← decMode bm
+    let bb ← decBool bb
+    match fromMatches nightly check emit backup l quiet verbose ie ib with
+    | .error e => pure s!"err:{encErr e}"
+    | .ok c =>
+      let r := applyTo c ⟨bm, bb, false⟩
+      pure s!"{encMode r.emitMode}:{encBool r.makeBackup}"
+  | "emit.e2e", [nightly, check, emit, backup, l, quiet, verbose, ie, ib, stdin, bm, bb, o, f, sc] => do
+    let nightly ← decBool nightly
+    let check ← decBool check
+    let emit ← decOpt decChars emit
+    let backup ← decBool backup
+    let l ← decBool l
+    let quiet ← decBool quiet
+    let verbose ← decBool verbose
+    let ie ← decOpt decMode ie
+    let ib ← decOpt decBool ib
+    let stdin ← decBool stdin
+    let bm ← decMode bm
+    let bb ← decBool bb
+    let o ← decChars o
+    let f ← decChars f
+    let sc ← RF.Driver.Diff.decScript sc
+    match fromMatches nightly check emit backup l quiet verbose ie ib with
+    | .error e => pure s!"err:{encErr e}"
+    | .ok c =>
+      let base : Base := ⟨bm, bb, false⟩
+      let res : Except CliError Resolved := if stdin then stdinResolve c base else .ok (applyTo c base)
+      match res with
+      | .error e => pure s!"err:{encErr e}"
+      | .ok r =>
+        let rr := RF.Emit.emit r.kind r.cfg ⟨o, f, sc⟩
+        let flags : Flags := ⟨false, false, false, false, false, rr.hasDiff, false⟩
+        pure s!"{encOps rr.ops}|{encOut rr.out}|{exitCode stdin c base flags}"
   | "emit.run", [k, l, q, o, f, sc] => do
     let k ← decKind k
     let l ← decBool l
